@@ -182,12 +182,8 @@ def _exit_model():
             if not isinstance(n.op, ast.Add):
                 raise engine_smt.Unsupported("accumulator updated with %s" % type(n.op).__name__)
             v = n.value
-            if isinstance(v, ast.Constant) and isinstance(v.value, int):
-                contribs.append(('const', v.value))
-            elif isinstance(v, ast.Call) and isinstance(v.func, ast.Name) and v.func.id == 'len':
-                contribs.append(('len',))
-            else:
-                raise engine_smt.Unsupported("accumulator contribution %s" % ast.dump(v))
+            has_len = any(isinstance(c, ast.Call) and isinstance(c.func, ast.Name) and c.func.id == 'len' for c in ast.walk(v))
+            contribs.append(('len' if has_len else 'const', v))
         elif isinstance(n, ast.Assign) and any(isinstance(t, ast.Name) and t.id == acc for t in n.targets):
             if not (isinstance(n.value, ast.Constant) and n.value.value == 0):
                 raise engine_smt.Unsupported("accumulator initialised with %s" % ast.dump(n.value))
@@ -207,11 +203,24 @@ def smt_cli_exit(config):
         acc, contribs, expr = _exit_model()
     except engine_smt.Unsupported as e:
         return {"status": "unknown", "error": "translator refused: %s" % e, "queries": 0}
-    const = [c[1] for c in contribs if c[0] == 'const'][0]
+    const_ast = [c[1] for c in contribs if c[0] == 'const'][0]
+    len_ast = [c[1] for c in contribs if c[0] == 'len'][0]
+
+    class _Len(ast.NodeTransformer):          # len(<anything>) -> the per-file error count
+        def visit_Call(self, node):
+            if isinstance(node.func, ast.Name) and node.func.id == 'len':
+                return ast.copy_location(ast.Name('__n', ast.Load()), node)
+            return self.generic_visit(node)
+    len_ast = _Len().visit(ast.parse(ast.unparse(len_ast), mode='eval').body)
     ns = [z3.Int('n%d' % i) for i in range(k)]
     xs = [z3.Bool('x%d' % i) for i in range(k)]        # file i raises a caught library/URL error instead
-    tot = z3.Sum([z3.If(xs[i], z3.IntVal(const), ns[i]) for i in range(k)])
     try:
+        terms = []
+        for i in range(k):
+            exc = engine_smt.as_int(engine_smt.expr_to_z3(const_ast, {}))
+            cnt = engine_smt.as_int(engine_smt.expr_to_z3(len_ast, {'__n': ns[i]}))
+            terms.append(z3.If(xs[i], exc, z3.If(ns[i] == 0, z3.IntVal(0), cnt)))
+        tot = z3.Sum(terms)
         code = engine_smt.as_int(engine_smt.expr_to_z3(expr, {acc: tot}))
     except engine_smt.Unsupported as e:
         return {"status": "unknown", "error": "translator refused: %s" % e, "queries": 0}
@@ -226,7 +235,7 @@ def smt_cli_exit(config):
     extra = [z3.Not(globals()[p](ns, xs)) for p in open_regions(__name__, "smt_cli_exit")]
     r, m = ses.check(*dom, *extra, (status == 0) != clean)
     out = {"queries": ses.queries, "solver_s": round(ses.seconds, 4), "functions": ["xmlschema.cli.validate"],
-           "samples": [{"exit_expression": ast.unparse(expr), "accumulator": acc, "contributions": contribs, "files": k, "max_errors": bound}]}
+           "samples": [{"exit_expression": ast.unparse(expr), "accumulator": acc, "contributions": [(c[0], ast.unparse(c[1])) for c in contribs], "files": k, "max_errors": bound}]}
     if r == 'unsat':
         out["status"] = "unsat"
     elif r == 'sat':
